@@ -162,6 +162,17 @@ def solver_requests(ctx):
                 crit = rng.choice(["ApproxKKT", "ProjGradNorm", "FPRNorm"])
                 params = ["solver.max_iter=30", "xcrit=%s" % crit, "solver.max_no_progress=%d" % mnp]
                 reqs.append(("slowprogress", crit, 30, sl.Request(prob, [off, off - dx], [], [], solver, direction, "inner", params, always=True, tol=1e-14)))
+    # a solver copied / moved from one that received stop(): the request was made to the other object, the derived solver was never asked to
+    # stop, so it must not report Interrupted (scenario "stoppedcopy": judged like a plain run; evals_at_stop stays -1)
+    crng = Rng(7)
+    for solver, direction in sl.STACKS:
+        for xc in (1, 2):
+            for mode in ("inner",):
+                prob, kind = sl.gen_problem(crng, "qp", n=2, m=1, hess=(solver == "pantr"))
+                crit = crng.choice(["ApproxKKT", "ProjGradNorm", "FPRNorm"])
+                params = ["solver.max_iter=%d" % crng.choice([3, 20]), "xcrit=%s" % crit, "xstoppedcopy=%d" % xc]
+                reqs.append(("stoppedcopy", crit, 20, sl.Request(prob, crng.vec(prob.n, 2.0), crng.vec(prob.m, 1.0), [1.0] * prob.m, solver, direction, mode, params,
+                                                                 always=True, tol=1e-6)))
     # FISTA in fixed-step mode (L_min == L_max) with general constraints and every criterion: psi(x_hat) / y_hat are evaluated on a different path there
     for i in range(ctx.n(30, 200)):
         prob, kind = sl.gen_problem(rng, "qp", n=rng.choice([1, 2, 3]), m=rng.choice([1, 2, 3]))
